@@ -6,14 +6,15 @@ MODEL_VO = ["theories/C13/Spec.vo"]
 PROOF_VO = ["theories/C13/Props.vo"]
 PROPS_V = "theories/C13/Props.v"
 EXTRACT = "extract/C13.v"
-DEPS = []
+DEPS = []  # (C13/Closers.v is also used by C12)
 DESIGN_REF = "DESIGN.md section 5, C13"
 DRIVE_TIMEOUT = 3000
 WIDEN = False
 TECHNIQUE = ("Coq: NextPackage as the SET of its possible results (theorems over every queue content / arrival list), the send loop with its context checks, and an "
              "interleaving system of reader goroutine, closing goroutine, peer answer and logout timeout with Go's RWMutex (pending writer blocks readers) and bounded queues: "
              "lock discipline as an invariant of EVERY step, progress + a strictly decreasing measure => Close returns in every schedule under explicit hypotheses; the "
-             "cases the full statement fails on are refuted by stuck-state witnesses (vm_compute) and listed as known findings; "
+             "cases the full statement fails on are refuted by stuck-state witnesses (vm_compute) and listed as known findings; a second system of n closers of ONE channel "
+             "(counting invariant over every schedule: exactly one performs the teardown); "
              "+ scripted schedules on the real Conn/Channel with watchdogs, the model predicting every observation")
 RULE = ("cap = ChannelPackageQueueSize = 4 (also 1; thorough: 1, 2, 8 in the fill-level families); kind = channel 0 / a logical channel (real setup handshake); cancellation modes: own ctx, Conn's ctx, parent of the Conn's ctx, expired deadline. "
         "fn 1: 0..cap+3 packages fed (reader parked on the full queue above cap), context cancelled BEFORE the calls, nfed+2 NextPackage(wait) calls, each in a settled state: 104 cases. "
@@ -27,9 +28,15 @@ RULE = ("cap = ChannelPackageQueueSize = 4 (also 1; thorough: 1, 2, 8 in the fil
         "schedule dependent, recorded in the input). fn 9: Close / Conn.Close while another goroutine waits in NextPackage with a live context, and with the context cancelled "
         "50 ms later. fn 7: Conn.Close with 0/1/2/5 channels with 0..cap packages queued, healthy transport / failing 1, 3, 9, 10 times / failing for good, also AFTER the connection context (or its parent) was cancelled; output: returned, "
         "every channel reports closed, transport closed, reader goroutine returned, goroutine count back to the count before the connection was made. "
+        "fn 11 packets for a closed channel: channel 0 / a logical channel closed by Channel.Close or Conn.Close, then packets of every kind - header-only (length 8) of types PROTACK, CLOSE, NORMAL, RESPONSE, SETUP with and "
+        "without EOM, packets with a complete / a partial package with and without EOM - each alone and all 14 in a row, handed to Channel.WritePacket directly and sent through the reader goroutine (connection error queue emptied after "
+        "each): 78 cases; output: every call returned / the reader idle again, queue lengths, ids reported invalid, NextPackage result, Conn.Close returned, reader ended. fn 12 the same packet kinds in the WINDOW: a consumer waits in "
+        "NextPackage on logical channel 1, Close / Conn.Close has sent the teardown and waits for the write lock, the packet arrives and the reader (channel still registered) queues in WritePacket's RLock behind the pending writer "
+        "(both parked states seen in the goroutine dump), the consumer's context is cancelled: 20 cases. fn 10 concurrent closers (as C12 fn 5): 2..3 goroutines in Channel.Close of one logical channel, Conn.Close among them, the "
+        "transport holds the teardown packets until all are parked in the write: 32 cases, GOMAXPROCS 1/4. "
         "Watchdogs: a call that must return gets 4 s, the known blocking scenarios are observed for 3 s; only booleans reach the case file. Distinct by (fn, input).")
 TRUSTED = ["Coq 8.16.1 kernel + vm_compute (no native_compute)",
-           "hand-written model coq/theories/C13/Model.v of NextPackage / NextPackageUntil / sendPackets / WritePacket / Close / Conn.Close / Conn.ReadFrom (tied by this correspondence: "
+           "hand-written models coq/theories/C13/Model.v + C13/Closers.v of NextPackage / NextPackageUntil / sendPackets / WritePacket / Close / Conn.Close / Conn.ReadFrom (tied by this correspondence: "
            "every scenario's observations are predicted by the model)",
            "harness/cmd/c12 (in-memory transport with held writes and scripted failures, peer answering setup and logout, settle detection by byte accounting, watchdogs), "
            "tds/verif_hooks.go (VerifNewConn, VerifCancel, VerifQueueLens, VerifErrChLen, VerifNextErr, VerifSetPacketSize), ocaml/driver.ml, extraction with ExtrOcamlBasic only"]
@@ -37,8 +44,10 @@ ASSUMPTIONS = ["sync.RWMutex as Go implements it: a pending Lock blocks new RLoc
                "select picks any ready case (the result SET contains every ready case)",
                "real time is not in the model: 'promptly' / 'bounded time' are observed as 'returned within 4 s' (blocking scenarios: 'not within 3 s'); the logout's one-minute context "
                "is a move that is always possible (LLogoutTimeout); goroutine leaks are observed through the reader goroutine's return and runtime.NumGoroutine",
-               "the system has ONE closing goroutine and one channel; Conn.Close over several channels is their sequential composition (observed with up to 5 channels); two "
-               "concurrent Close calls on one channel are not modelled (the 'closed by a concurrent call' branch is in the model, unreachable with one closer)",
+               "the reader/closer system has ONE closing goroutine and one channel; Conn.Close over several channels is their sequential composition (observed with up to 5 channels); "
+               "several closers of one channel are a system of their own (C13/Closers.v: n instances of the same program on a logical channel, no long-term read-lock holders, the closers' own "
+               "RLock/check/RUnlock is one step); concurrent Close of channel 0 (two logouts competing for one answer) is not modelled and not provoked",
+               "closers released together write CurrentHeaderType / curPacketNr without a lock (data race on the unchanged tree, see props/c12.py): C13 does not judge packet numbers",
                "a Read that fails with io.EOF together with a complete packet (CLOSE packets) is not modelled: transport reads yield a packet or a non-EOF error",
                "with errors queued on the connection or the channel NextPackage may return such an error instead of the context's error (select): C13_cancel assumes none queued, "
                "C13_cancel_never_blocks holds regardless; with wait=false ErrNoPackageReady is a possible answer also under a cancelled context (the spec accepts it)",
@@ -52,8 +61,11 @@ ASSUMPTIONS = ["sync.RWMutex as Go implements it: a pending Lock blocks new RLoc
 LEVEL_TEXT = ("Machine-checked over every queue content and every schedule of the modelled steps: C13_cancel_never_blocks / C13_cancel - with a done context NextPackage has no blocking "
               "result and (no error queued) every result is the first queued / first arriving package or the context's error; C13_cancel_until_callback / _drain - NextPackageUntil ends "
               "with a shown package, the response end or the context's error; C13_send_cancelled / C13_send_prefix - a context done at the start: no packet written; in general exactly the "
-              "packets in front of which the contexts were live; C13_after_close - every receive / send / Close call reports closed, and under every schedule the channel stays closed and its "
-              "queue only loses packages; C13_conn_close + C13_reader_guard - after Conn.Close returned: channel closed and unregistered, context done, transport closed, reader's loop guard "
+              "packets in front of which the contexts were live; C13_after_close - every receive / send / Close call reports closed, under every schedule the channel stays closed, its "
+              "queue only loses packages and the reader is never at a send to it (which would block for ever on the nil channel), WritePacket of a closed channel is lock / check / unlock for ANY packet "
+              "(header-only or with a body); C13_reader_free_after_close - a closed channel never holds the reader up; C13_concurrent_close - EVERY schedule of n+1 closers of one channel: no panic, "
+              "teardown started at most once, no deadlock, at most 9 moves per closer, at the end exactly one winner and n times ErrChannelClosed (C13_concurrent_close_unchecked_refuted: without the re-check "
+              "under the write lock the second closer panics); C13_conn_close + C13_reader_guard - after Conn.Close returned: channel closed and unregistered, context done, transport closed, reader's loop guard "
               "false; C13_reader_ends_partial (error queue has room) vs C13_reader_ends_refuted (full queue: stuck for ever); C13_close_terminates_partial - no goroutine outside holds the read "
               "lock for good and the queue has room for what may still come => in every reachable state somebody can move until Close returned, and every run has at most measure(init) moves; "
               "the full statement is refuted by C13_close_terminates_refuted (reader parked on a full queue) and C13_close_waits_for_consumer_refuted (consumer parked in NextPackage), both known "
